@@ -7,17 +7,10 @@ import "os"
 // Models shared by the C04 obligations that run the real builder end to end.
 //
 // Hash cut: xxhash (assembly, and a distribution no solver can reason about) is replaced by an
-// uninterpreted function of (prefix, key identity). Harness keys differ only in their length
-// and their first four bytes (all other bytes are zero), so verifC04KeyID is injective on the
-// keys used and "uninterpreted function of the id" = "arbitrary hash function of the key".
-
-func verifC04KeyID(key []byte) uint64 {
-	id := uint64(len(key)) << 32
-	for i := 0; i < 4 && i < len(key); i++ {
-		id |= uint64(key[i]) << (8 * i)
-	}
-	return id
-}
+// uninterpreted function of (prefix, key identity). Harness keys differ in their length or
+// their first four bytes, so verifC04KeyID (length, first four bytes, checksum of the rest) is
+// injective on the keys used and "uninterpreted function of the id" = "arbitrary hash function
+// of the key".
 
 // hashRange bounds the low 24 bits of the modelled entry hash (the collision bitmap is indexed
 // with it, which the engine concretises): 0 = unbounded.
@@ -31,8 +24,9 @@ var verifC04HashLow func(prefix uint32, key []byte) (uint64, bool)
 // of (prefix, key); its low 24 bits are restricted to [0, verifC04HashRange).
 func EntryHash64(prefix uint32, key []byte) uint64 {
 	id := verifC04KeyID(key)
-	// prefix and key id do not overlap for key lengths < 2^16 (id < 2^48) and prefix < 2^16
-	v := verifUF64("entryhash", uint64(prefix)<<48^id)
+	// prefix (mining nonce, < 1000) goes to bits 54..63: no overlap with the 54-bit key id
+	verifAssert(prefix < 1<<10, "C04 model: hash prefix (nonce) >= 1024")
+	v := verifUF64("entryhash", uint64(prefix)<<54^id)
 	if verifC04HashLow != nil {
 		if low, ok := verifC04HashLow(prefix, key); ok {
 			return v&^0xffffff | low&0xffffff
@@ -44,12 +38,136 @@ func EntryHash64(prefix uint32, key []byte) uint64 {
 	return v
 }
 
+// verifC04PickBuckets, if non-zero, makes the modelled key hash concrete: the bucket of each
+// (concrete) key is chosen by verifChoice among verifC04PickBuckets buckets and the hash is a
+// fixed multiple of the bucket count plus that bucket (>= the rejection bound r < NumBuckets, so
+// BucketHash performs no re-hash round; the modular arithmetic for arbitrary hashes is
+// C04.buckethash's). Used where a symbolic `u % n` for n = 3..7 is too expensive for the solvers.
+var verifC04PickBuckets uint64
+var verifC04Picked = map[uint64]uint64{}
+
 // verifC04Sum64 replaces xxhash.Sum64 in Header.BucketHash (rewrite): arbitrary function of the key.
 func verifC04Sum64(key []byte) uint64 {
-	return verifUF64("sum64", verifC04KeyID(key))
+	id := verifC04KeyID(key)
+	if n := verifC04PickBuckets; n != 0 {
+		u, ok := verifC04Picked[id]
+		if !ok {
+			u = n*(1000003+id%1009) + uint64(verifChoice("bucket", int(n)))
+			verifC04Picked[id] = u
+		}
+		return u
+	}
+	return verifUF64("sum64", id)
 }
 
 // fallocate (model; linux syscall renamed away): the portable implementation of the repo.
 func fallocate(f *os.File, offset int64, size int64) error {
 	return fake_fallocate(f, offset, size)
 }
+
+// ---------------------------------------------------------------------------
+// Helpers shared by the C04 harnesses that do NOT touch any declaration of the package under
+// test (so a refactoring of a private helper only affects the lemma about that helper).
+
+// verifC04Perm returns the which-th insertion order of n elements:
+// 0 identity, 1 reverse, 2 rotate by n/2, 3 odd positions first then even, 4 an LCG shuffle.
+// For n <= 3 `which` enumerates all n! orders.
+func verifC04Perm(n, which int) []int {
+	p := make([]int, n)
+	for i := range p {
+		p[i] = i
+	}
+	if n <= 3 {
+		all := [][]int{{0, 1, 2}, {0, 2, 1}, {1, 0, 2}, {1, 2, 0}, {2, 0, 1}, {2, 1, 0}}
+		if n == 3 {
+			return all[which%6]
+		}
+		if n == 2 && which%2 == 1 {
+			return []int{1, 0}
+		}
+		return p
+	}
+	switch which {
+	case 1:
+		for i := range p {
+			p[i] = n - 1 - i
+		}
+	case 2:
+		for i := range p {
+			p[i] = (i + n/2) % n
+		}
+	case 3:
+		k := 0
+		for i := 1; i < n; i += 2 {
+			p[k] = i
+			k++
+		}
+		for i := 0; i < n; i += 2 {
+			p[k] = i
+			k++
+		}
+	case 4:
+		s := uint32(12345 + n)
+		for i := n - 1; i > 0; i-- {
+			s = s*1103515245 + 12345
+			j := int((s >> 8) % uint32(i+1))
+			p[i], p[j] = p[j], p[i]
+		}
+	}
+	return p
+}
+
+func verifC04NumPerms(n, want int) int {
+	switch {
+	case n <= 1:
+		return 1
+	case n == 2:
+		return 2
+	case n == 3:
+		return 6
+	}
+	return want
+}
+
+func verifC04Key(i int, long int) []byte {
+	// key i: length i+1 (or `long` for key 0 when long >= 0), first byte i+1, markers in the middle and at the end of keys longer than 4 bytes, rest zero
+	n := i + 1
+	if i == 0 && long >= 0 {
+		n = long
+	}
+	k := make([]byte, n)
+	if n > 0 {
+		k[0] = byte(i + 1)
+	}
+	if n > 4 {
+		k[n-1] = 0xa5 // tail marker (enters the id through the checksum)
+		k[n/2] = 0x5a
+	}
+	return k
+}
+
+
+// verifC04KeyID identifies a harness key in 54 bits: its length (bits 32..48), its first four
+// bytes (bits 0..31) and a 5-bit position-weighted checksum of all further bytes (bits 49..53),
+// so that a key that reaches the hash function truncated, padded or with a corrupted tail gets
+// another id. Harness keys differ in length or in their first four bytes, so the id is
+// injective on them.
+func verifC04KeyID(key []byte) uint64 {
+	id := uint64(len(key)) << 32
+	for i := 0; i < 4 && i < len(key); i++ {
+		id |= uint64(key[i]) << (8 * i)
+	}
+	var sum uint64
+	for i := 4; i < len(key); i++ {
+		sum += uint64(i+1) * uint64(key[i])
+	}
+	return id | ((sum%31+1)<<49)*verifC04B2U(len(key) > 4)
+}
+
+func verifC04B2U(b bool) uint64 {
+	if b {
+		return 1
+	}
+	return 0
+}
+
